@@ -81,7 +81,10 @@ class RowCollector:
         if self._array:
             for n, name in enumerate(self._columns):
                 data = getattr(self,name)
-                new = np.array(values[n],dtype=data.dtype)
+                # string columns take the item size from the new value, not from the existing
+                # (possibly empty) column, otherwise longer strings are silently truncated
+                dtype = data.dtype.type if data.dtype.kind in 'SU' else data.dtype
+                new = np.array(values[n],dtype=dtype)
                 setattr(self,name, np.append(data,new) )
         else:
             for n, name in enumerate(self._columns):
